@@ -388,6 +388,10 @@ class ReconnH(explore.Harness):
             self.viol.append(("c11:more-than-one-open-connection", {"open": [(c.cid, getattr(c, "behaviour", "?")) for c in opened], "t": now}))
         if self.pairing.is_connected and opened and (cur is None or opened[0] is not cur):
             self.viol.append(("c11:connected-but-open-connection-is-not-the-current-one", {"open": [c.cid for c in opened], "t": now}))
+        # a connection the peer has closed (its FIN has been handed to the protocol) is not a connection any more: the pairing must not go on
+        # reporting it as connected (nothing would ever reconnect)
+        if self.pairing.is_connected and cur is not None and not cur.peer_open and not getattr(cur.transport, "_lost_pending", False):
+            self.viol.append(("c10:still-reports-connected-on-a-connection-the-peer-closed", {"cid": cur.cid, "t": now, "client_side_open": cur.client_open}))
         # quiescent => no secure-session setup is in flight: an open connection while the pairing is not connected is a leak
         setting_up = cur is not None and opened and opened[0] is cur and self.conn._connector is not None and not self.conn._connector.done()  # a silent accessory: the setup request is still in flight
         if opened and not self.pairing.is_connected and not self._pending_att() and not setting_up:
@@ -426,9 +430,15 @@ class ReconnH(explore.Harness):
             if first_of_round and port_check and prev is not None and prev["end"] is not None and a["t"] > prev["end"] + 1e-9:
                 # a round that starts (after a back-off) later than the announcement goes to the port that is advertised now
                 self.viol.append(("c10:attempt-to-a-port-that-is-no-longer-advertised", {"attempt_port": a["port"], "advertised_port": self.cur_port, "t": a["t"], "announced_at": self.port_changed_at[1]}))
+            # "an immediate retry happens only to move on to another advertised address": the attempt that follows a wrong-pairing-id answer without
+            # any delay must not list the address that has just answered as another accessory
+            if prev is not None and prev["outcome"] and prev["outcome"][0] == "ok" and prev["end"] is not None and not any(abs(t - a["t"]) < 1e-9 for t, _ in self.trigger_times + self.env_marks):
+                pc = self.net.conns[prev["outcome"][2]]
+                if getattr(pc, "behaviour", None) == "wrong-id" and prev["outcome"][1] in a["hosts"] and len(a["hosts"]) > 1 \
+                        and a["t"] - prev["end"] < 0.1 - 1e-9:
+                    self.viol.append(("c10:immediate-retry-returns-to-the-address-that-just-answered-as-another-accessory", {"address": prev["outcome"][1], "attempt_hosts": a["hosts"], "t": a["t"]}))
             if not first_of_round or not self.p.get("with_description", True):
                 continue
-            pass
             if set(a["hosts"]) <= set(self.cur_hosts):  # (an attempt already in flight when the addresses changed is not judged)
                 eligible = [h for h in self.cur_hosts if h not in self.model_excluded and h not in self.model_excluded_lazy]
                 if not eligible:
